@@ -42,11 +42,11 @@ func runC01(r *core.Run) {
 	defer c14SendFailureReturns(r, "R01.14")
 
 	fConn := p.Field("tds", "Conn", "conn")
-	roles := map[string]string{
-		"tds.NewConn":               "init",
-		"(*tds.Conn).Close":         "close",
-		"(*tds.Conn).ReadFrom":      "read",
-		"(*tds.Channel).sendPacket": "write",
+	roles := map[*ssa.Function]string{
+		p.Func("tds", "", "NewConn"):           "init",
+		p.Func("tds", "Conn", "Close"):         "close",
+		p.Func("tds", "Conn", "ReadFrom"):      "read",
+		p.Func("tds", "Channel", "sendPacket"): "write",
 	}
 	pread := p.Func("tds", "Packet", "ReadFrom")
 	pwrite := p.Func("tds", "Packet", "WriteTo")
@@ -57,7 +57,7 @@ func runC01(r *core.Run) {
 				if !ok || core.FieldOfAddr(fa) != fConn {
 					continue
 				}
-				role, known := roles[core.FuncName(fn)]
+				role, known := roles[fn]
 				key := core.FuncName(fn) + ": Conn.conn"
 				if !known {
 					r.Bad("R01.1", key, fa.Pos(), "the transport is used outside its four roles: bytes written here bypass packetisation (headers, EOM, channel id)")
